@@ -23,6 +23,7 @@ type c07Input struct {
 	NameQ string    `json:"name_q,omitempty"`
 	Rules []c07Rule `json:"rules,omitempty"`
 	Act   string    `json:"action,omitempty"`
+	Warm  bool      `json:"warm,omitempty"` // the Rules value was used with other contents before and edited in place
 }
 
 type c07Rule struct {
@@ -187,7 +188,23 @@ func c07Run(in c07Input) Record {
 		}
 		return rec
 	case "rules":
-		r := safeAllow(toACL(in.Rules), acl.Action(in.Act), string(in.Name))
+		rs := toACL(in.Rules)
+		if in.Warm {
+			// the same Rules value was used before with OTHER patterns and actions and is then edited in
+			// place (grants change over the life of a process): the answer is a function of the rules as they
+			// are now, whatever was asked of this value earlier
+			for i := range rs {
+				keepS, keepA := rs[i].Secret, rs[i].Action
+				rs[i].Secret = []acl.Secret{"warm-up/*", acl.Secret(in.Name), "*"}
+				rs[i].Action = []acl.Action{acl.Action(in.Act), "get", "put"}
+				safeAllow(rs, acl.Action(in.Act), string(in.Name))
+				safeAllow(rs[i:i+1], "get", "warm-up/x")
+				rs[i].Secret, rs[i].Action = keepS, keepA
+			}
+			cp := append(acl.Rules(nil), rs...) // and a copy of the slice shares nothing that matters
+			safeAllow(cp, acl.Action(in.Act), string(in.Name))
+		}
+		r := safeAllow(rs, acl.Action(in.Act), string(in.Name))
 		in.NameQ = fmt.Sprintf("%q", in.Name)
 		kb, _ := json.Marshal(in)
 		rec := Record{Kind: "rules", Input: in, Obs: r, Key: "rules:" + string(kb), Nontrivial: len(in.Rules) > 0,
@@ -337,7 +354,7 @@ func c07Generate(o Opts, emit func(c07Input)) {
 		if r.IntN(5) == 0 {
 			act = []string{"list", "", "Get", "rotate", "get ", "GET"}[r.IntN(6)]
 		}
-		emit(c07Input{Kind: "rules", Rules: rs, Act: act, Name: names[r.IntN(len(names))]})
+		emit(c07Input{Kind: "rules", Rules: rs, Act: act, Name: names[r.IntN(len(names))], Warm: r.IntN(4) == 0})
 	}
 }
 
